@@ -137,3 +137,165 @@ def run(ctx, fx, file, framer_rx=r"::tagged$", rule="R-TAGKIND", only=None):
                       "these frames is decoded with the wrong codec" % msg, file, where[0][1])
     ctx.instance(rule + ".sites", nsites)
     return nsites
+
+
+# ------------------------------------------------------------------ R-TAGKIND.record
+def _canon(fn, l, depth=0):
+    """root local of a chain of plain copies"""
+    while l is not None and depth < 8:
+        ds = fn.defs(l)
+        if len(ds) == 1 and ds[0][1] == "assign" and ds[0][2][2][0] == "use" and len(ds[0][2][1]) == 1:
+            p = op_place(ds[0][2][2][1])
+            if p and len(p) == 1:
+                l = p[0]
+                depth += 1
+                continue
+        break
+    return l
+
+
+def _gate(fn, x):
+    """for a local with several defs, each under a different outcome of one switch: (cond root, {value: def}); else None"""
+    ds = [d for d in fn.defs(x) if d[1] in ("assign", "call")]
+    if len(ds) < 2:
+        return None
+    for s in fn.blocks():
+        t = fn.term(s)
+        if t[0] != "sw":
+            continue
+        edges = [(int(v), tgt) for v, tgt in t[2]] + [("else", t[3])]
+        got = {}
+        for d in ds:
+            b = d[0][0]
+            under = [v for v, tgt in edges if len(fn.pred(tgt)) == 1 and fn.dominates(tgt, b)]
+            if len(under) != 1:
+                got = None
+                break
+            if under[0] in got:
+                got = None
+                break
+            got[under[0]] = d
+        if got:
+            c = _canon(fn, op_local(t[1]))
+            # a two-way switch on a bool: the `else` edge is the value the explicit edge is not
+            vals = {v for v, _ in edges if v != "else"}
+            if "else" in got and vals <= {0, 1} and len(vals) == 1:
+                got[1 - next(iter(vals))] = got.pop("else")
+            return c, got
+    return None
+
+
+def record_sites(ctx, fx, fid, struct_path, payload_field, tag_fields, rule="R-TAGKIND.record"):
+    """the record a store keeps per blob carries the payload next to flags that say how to undo it. Over every place the
+    record is built in `fid` - split by the outcome of the conditions that select its operands, so that
+    `if c { a } else { b }` fields are correlated - a payload that is the caller's bytes unchanged (kind I) goes with
+    constant flags, the same at every such place, and no transformed payload (kind T) is filed under those flags."""
+    fn = Fn(fx.raw(fid))
+    adt = fx.adts.get(struct_path)
+    names = [f[0] for f in adt["variants"][0]["fields"]]
+    pi = names.index(payload_field)
+    tis = [names.index(t) for t in tag_fields]
+    fl = sym.Flow(fx)
+    src = [l for l in range(1, fn.nargs + 1) if fn.ty(l) in ("&[u8]", "&'{erased} [u8]")]
+    _, state = fl.kinds(fn, src, lambda *a: False)
+
+    def kinds_of_local(l):
+        return {"T" if k else "I" for k in state.get(l, ())}
+
+    def resolve(o, A, want, depth=0):
+        """want='tag' -> ('const', v) | ('var', None);  want='kind' -> set of kinds. A: assumptions {cond root: value}"""
+        k = op_const(o)
+        if k is not None:
+            return ("const", k[0]) if want == "tag" else set()
+        l = op_local(o)
+        if l is None or depth > 10:
+            return ("var", None) if want == "tag" else set()
+        if want == "tag" and _canon(fn, l) in A:
+            return ("const", A[_canon(fn, l)])
+        g = _gate(fn, l)
+        ds = fn.defs(l)
+        if g and g[0] in A and A[g[0]] in g[1]:
+            ds = [g[1][A[g[0]]]]
+        if len(ds) != 1:
+            return ("var", None) if want == "tag" else kinds_of_local(l)
+        d = ds[0]
+        if d[1] == "assign":
+            rv = d[2][2]
+            if rv[0] == "use":
+                return resolve(rv[1], A, want, depth + 1)
+            if rv[0] == "agg" and isinstance(rv[1], str) and not rv[2]:
+                return ("const", rv[1].rsplit("::", 1)[-1]) if want == "tag" else set()
+            return ("var", None) if want == "tag" else kinds_of_local(l)
+        if d[1] == "call":
+            if want == "tag":
+                return ("var", None)
+            c = d[2]
+            if c["f"].rsplit("::", 1)[-1] in sym.IDENT_CALLS and c["a"]:
+                return resolve(c["a"][0], A, want, depth + 1)
+            return kinds_of_local(l)
+        return ("var", None) if want == "tag" else kinds_of_local(l)
+
+    def gates_under(o, seen, depth=0):
+        l = op_local(o)
+        if l is None or l in seen or depth > 10:
+            return {}
+        seen.add(l)
+        out = {}
+        g = _gate(fn, l)
+        if g:
+            out[g[0]] = set(g[1])
+            for d in g[1].values():
+                if d[1] == "assign" and d[2][2][0] == "use":
+                    out.update(gates_under(d[2][2][1], seen, depth + 1))
+        else:
+            for d in fn.defs(l):
+                if d[1] == "assign" and d[2][2][0] == "use":
+                    out.update(gates_under(d[2][2][1], seen, depth + 1))
+        return out
+
+    sites = []
+    for loc, st in fn.iter_locs():
+        if not (st[0] == "a" and st[2][0] == "agg" and isinstance(st[2][1], str) and st[2][1].startswith("adt:" + struct_path + "::")):
+            continue
+        ops = st[2][2]
+        if len(ops) != len(names):
+            continue
+        gs = {}
+        for i in [pi] + tis:
+            gs.update(gates_under(ops[i], set()))
+        conds = sorted(gs, key=str)
+        combos = [{}]
+        for c in conds:
+            combos = [{**A, c: v} for A in combos for v in sorted(gs[c], key=str)]
+        for A in combos[:16]:
+            kinds = resolve(ops[pi], A, "kind")
+            tags = tuple(resolve(ops[i], A, "tag") for i in tis)
+            sites.append((st[3], A, frozenset(kinds), tags))
+    ctx.analysed_fns.add(fid)
+    ident = [s for s in sites if s[2] == frozenset({"I"})]
+    bad = None
+    for ln, A, kinds, tags in sites:
+        if "I" in kinds and any(t[0] != "const" for t in tags):
+            which = [tag_fields[i] for i, t in enumerate(tags) if t[0] != "const"]
+            bad = (ln, "the caller's bytes are stored unchanged%s but %s is not a constant there"
+                   % (" (when %s)" % ", ".join("%s = %s" % (fn.local_name(c) or c, v) for c, v in A.items()) if A else "", "/".join(which)))
+            break
+    if bad is None and ident:
+        ref = ident[0][3]
+        for ln, A, kinds, tags in sites:
+            if kinds == frozenset({"I"}) and tags != ref:
+                bad = (ln, "raw payloads are filed under different flags at different places (%s vs %s)" % (tags, ref))
+                break
+            if kinds == frozenset({"T"}) and tags == ref:
+                bad = (ln, "a transformed payload is filed under the flags of a raw one %s" % (ref,))
+                break
+    ok = bad is None and bool(sites)
+    ctx.obligation(rule, fid, "flags of %s determine what was done to %s" % (struct_path.rsplit("::", 1)[-1], payload_field), ok,
+                   sample={"fn": fid, "sites": [(ln, sorted(k), [t[1] if t[0] == "const" else "var" for t in tags]) for ln, A, k, tags in sites][:8]})
+    if not ok:
+        ctx.violation(rule, fid, "flags do not follow the payload",
+                      "%s builds %s where %s: the reader undoes the payload by the flags alone and applies the wrong inverse"
+                      % (fid.rsplit("::", 1)[-1], struct_path.rsplit("::", 1)[-1], bad[1] if bad else "no construction site was found"),
+                      fn.file, bad[0] if bad else fn.line)
+    ctx.instance(rule + ".sites", len(sites))
+    return len(sites)
